@@ -11,7 +11,9 @@ structure St where
   kv : List (String × String) := []
   closed : Bool := false
 
-def step (s : St) (ws : List String) : St × String :=
+def step (s : St) (ws0 : List String) : St × String :=
+  -- `rpub` / `rdel`: the same write arriving at the leader as a forwarded request (handle_route)
+  let ws := match ws0 with | ["rpub", k, c] => ["pub", k, c] | ["rdel", k] => ["del", k] | w => w
   match ws with
   | ["pub", k, c] =>
     if s.closed then (s, "err") else ({ s with kv := (k, c) :: s.kv.filter (·.1 != k) }, "ok")
@@ -30,7 +32,7 @@ def specStep (s : SpecSt) (ws : List String) : SpecSt × String :=
   match ws with
   | ">" :: ans =>
     let s0 := { s with pending := [] }
-    match s.pending with
+    match (match s.pending with | ["rpub", k, c] => ["pub", k, c] | ["rdel", k] => ["del", k] | p => p) with
     | ["pub", k, c] =>
       let s1 := { s0 with tried := (k, c) :: s.tried }
       if ans == ["ok"] then ({ s1 with acked := (k, some c) :: s.acked.filter (·.1 != k) }, "spec ok") else (s1, "-")
